@@ -5587,6 +5587,11 @@ impl<'a, const HAS_CR: bool> Parser<'a, HAS_CR> {
                         Some(b'\n' | b'\r') | None => {
                             // Property with value on next line - will be parsed in next iteration
                         }
+                        Some(b'#') => {
+                            // A comment after the property (`&a # c`): the value is on
+                            // the next line, as above.
+                            self.skip_to_eol();
+                        }
                         // Keep this guard on one line: rustfmt splitting the
                         // `matches!` across lines gives the opening line its own
                         // coverage region that never reports as executed, even
